@@ -27,15 +27,19 @@ Definition with_data (b : mbuf) (d : bytes) : mbuf := {| base := base b; cap := 
 Record mem_arena := { mbufs : list mbuf;       (* buffers[0 .. num_buffers) *)
                       mrelocs : list slot;     (* reloc_list_head .. tail, in list order *)
                       minit : N;               (* initial_buffer_size *)
-                      mcalls : nat }.          (* number of yr_realloc calls so far (indexes the oracle) *)
+                      mcalls : nat;            (* number of yr_realloc calls so far (indexes the oracle) *)
+                      mzlim : list N }.        (* per buffer: the bytes at offsets [used, mzlim) are known to be zero *)
 
 (* C return codes / behaviours that are not a return value *)
 Inductive merr := EInvalidArgument | ENoMem.
 Inductive mbad :=
 | BadBufferId     (* buffer_id == num_buffers passes the test `buffer_id > arena->num_buffers` *)
 | BadAssertPtr    (* an assert() of yr_arena_get_ptr fires *)
-| BadOOB          (* memcpy outside the used part of a buffer *)
+| BadStoreOOB     (* memcpy outside the used part of a buffer *)
 | BadHang         (* initial_buffer_size == 0: `while (new_size < used + size) new_size *= 2` never ends *)
+| BadDirtyZero    (* a ZERO_MEMORY allocation served from spare capacity that was never zeroed: arena.c
+                     memsets only when it reallocs with the flag, so after a growth caused by
+                     yr_arena_write_data / yr_arena_allocate_memory the "zeroed" memory is indeterminate *)
 | BadPlacement.   (* the oracle answered something realloc cannot return: NULL is modelled as ENoMem by the
                      caller, here: overlapping another live block, or wrapping around the address space *)
 Inductive mres (A : Type) := MOk (a : A) | MErr (e : merr) | MBad (b : mbad).
@@ -71,7 +75,7 @@ Fixpoint dbl (fuel : nat) (n need : N) : N :=
   | S f => if n <? need then dbl f (2 * n) need else n
   end.
 Definition four_gb : N := 4294967296.
-Inductive gres := GOk (n : N) | GNoMem | GHang.
+Inductive gres := GOk (n : N) | GNoMem | GHang | GBadAnswer.
 Definition grow_size (init cp need : N) : gres :=
   if four_gb <? need then GNoMem           (* the loop ends above 4GB (size_t does not wrap below 2^63) *)
   else
@@ -96,12 +100,21 @@ Fixpoint place_ok_from (i : nat) (l : list mbuf) (b : nat) (nbase ncap : N) : bo
 Definition placement_ok (l : list mbuf) (b : nat) (nbase ncap : N) : bool :=
   negb (nbase =? 0) && (nbase + ncap <=? two64) && place_ok_from 0 l b nbase ncap.
 
-Definition oracle := nat -> N.      (* answer of the k-th yr_realloc call *)
+(* answer of the k-th yr_realloc call: the address, and optionally the size that was asked for.
+   [None]: the size is arena.c's (doubling from the initial size, [grow_size]).  [Some n]: any other
+   growth policy; n must make room for the request and stay within 4 GB.  The theorems hold for every
+   oracle, hence for every growth policy: the doubling factor is not something they depend on. *)
+Definition oracle := nat -> N * option N.
+Definition pick_size (ans : option N) (init cp need : N) : gres :=
+  match ans with
+  | None => grow_size init cp need
+  | Some n => if (n <? need) || (four_gb <? n) then GBadAnswer else GOk n
+  end.
 
 (* _yr_arena_allocate_memory(arena, flags, b, |x|, &ref) followed by what the caller stores in the new
    region: x is zeros for the ZERO_MEMORY flag, the data of yr_arena_write_data, or the indeterminate
    contents of fresh memory for yr_arena_allocate_memory *)
-Definition m_alloc (orc : oracle) (m : mem_arena) (b : nat) (x : bytes) : mres mem_arena :=
+Definition m_alloc (orc : oracle) (m : mem_arena) (b : nat) (zero : bool) (x : bytes) : mres mem_arena :=
   let l := mbufs m in
   let nb := length l in
   if (nb <? b)%nat then MErr EInvalidArgument
@@ -110,21 +123,25 @@ Definition m_alloc (orc : oracle) (m : mem_arena) (b : nat) (x : bytes) : mres m
     let mb := bufof l b in
     let u := nlen (data mb) in
     if cap mb - u <? nlen x then
-      match grow_size (minit m) (cap mb) (u + nlen x) with
+      match pick_size (snd (orc (mcalls m))) (minit m) (cap mb) (u + nlen x) with
       | GNoMem => MErr ENoMem
       | GHang => MBad BadHang
+      | GBadAnswer => MBad BadPlacement
       | GOk ncap =>
-          let nbase := orc (mcalls m) in
+          let nbase := fst (orc (mcalls m)) in
           if placement_ok l b nbase ncap then
             let l1 := if negb (base mb =? 0) && negb (base mb =? nbase)
                       then mapslots (fixup (base mb) u nbase) (mrelocs m) l else l in
             let mb1 := bufof l1 b in
             MOk {| mbufs := upd l1 b {| base := nbase; cap := ncap; data := data mb1 ++ x |};
-                   mrelocs := mrelocs m; minit := minit m; mcalls := S (mcalls m) |}
+                   mrelocs := mrelocs m; minit := minit m; mcalls := S (mcalls m);
+                   (* `if (flags & YR_ARENA_ZERO_MEMORY) memset(new_data + used, 0, new_size - used)` *)
+                   mzlim := if zero then upd (mzlim m) b ncap else mzlim m |}
           else MBad BadPlacement
       end
+    else if zero && (nth b (mzlim m) 0 <? u + nlen x) then MBad BadDirtyZero
     else MOk {| mbufs := upd l b (with_data mb (data mb ++ x));
-                mrelocs := mrelocs m; minit := minit m; mcalls := mcalls m |}.
+                mrelocs := mrelocs m; minit := minit m; mcalls := mcalls m; mzlim := mzlim m |}.
 
 (* yr_arena_get_ptr / yr_arena_ref_to_ptr *)
 Definition get_ptr (l : list mbuf) (t : option slot) : mres N :=
@@ -142,11 +159,11 @@ Definition m_poke (m : mem_arena) (b off : nat) (x : bytes) : mres mem_arena :=
   let l := mbufs m in
   if (b <? length l)%nat && (off + length x <=? used l b)%nat then
     MOk {| mbufs := upd l b (with_data (bufof l b) (splice (data (bufof l b)) off x));
-           mrelocs := mrelocs m; minit := minit m; mcalls := mcalls m |}
-  else MBad BadOOB.
+           mrelocs := mrelocs m; minit := minit m; mcalls := mcalls m; mzlim := mzlim m |}
+  else MBad BadStoreOOB.
 
 Definition m_reg (m : mem_arena) (ss : list slot) : mem_arena :=
-  {| mbufs := mbufs m; mrelocs := mrelocs m ++ ss; minit := minit m; mcalls := mcalls m |}.
+  {| mbufs := mbufs m; mrelocs := mrelocs m ++ ss; minit := minit m; mcalls := mcalls m; mzlim := mzlim m |}.
 
 (* ---------- operations: an address-free description of what a client of the arena does *)
 Inductive op :=
@@ -164,12 +181,12 @@ Inductive op :=
 
 Definition step (orc : oracle) (m : mem_arena) (o : op) : mres mem_arena :=
   match o with
-  | OAlloc b n => m_alloc orc m b (repeat 0 n)
-  | OAllocRaw b x => m_alloc orc m b x
-  | OWrite b x => m_alloc orc m b x
+  | OAlloc b n => m_alloc orc m b true (repeat 0 n)
+  | OAllocRaw b x => m_alloc orc m b false x
+  | OWrite b x => m_alloc orc m b false x
   | OStruct b n offs =>
       let u := used (mbufs m) b in
-      mdo m1 <- m_alloc orc m b (repeat 0 n);
+      mdo m1 <- m_alloc orc m b true (repeat 0 n);
       MOk (m_reg m1 (map (fun o => (b, (u + o)%nat)) offs))
   | ORelocStore b off t =>
       mdo p <- get_ptr (mbufs m) t;
@@ -181,8 +198,8 @@ Definition step (orc : oracle) (m : mem_arena) (o : op) : mres mem_arena :=
   | OEmitArgReloc b i t =>
       let u := used (mbufs m) b in
       mdo p <- get_ptr (mbufs m) t;
-      mdo m1 <- m_alloc orc m b [i];
-      mdo m2 <- m_alloc orc m1 b (le_enc 8 p);
+      mdo m1 <- m_alloc orc m b false [i];
+      mdo m2 <- m_alloc orc m1 b false (le_enc 8 p);
       MOk (m_reg m2 [(b, S u)])
   end.
 
@@ -194,7 +211,7 @@ Fixpoint run (orc : oracle) (m : mem_arena) (ops : list op) : mres mem_arena :=
 
 (* yr_arena_create(nb, cap, &arena) *)
 Definition init (nb : nat) (cp : N) : mem_arena :=
-  {| mbufs := repeat nullbuf nb; mrelocs := []; minit := cp; mcalls := 0 |}.
+  {| mbufs := repeat nullbuf nb; mrelocs := []; minit := cp; mcalls := 0; mzlim := repeat 0 nb |}.
 
 (* ---------- yr_arena_ptr_to_ref: first buffer, in index order, with data != NULL and
    data <= address < data + used *)
@@ -324,3 +341,14 @@ Definition ainit (nb : nat) : aarena := {| abufs := repeat [] nb; arelocs := [] 
    other rules of the interface: slots inside the used part and not overlapping, plain bytes are not
    stored over a registered slot, emit_with_arg_reloc is not given a pointer into the buffer it writes to *)
 Definition disciplined (nb : nat) (ops : list op) : Prop := exists a, arun true (ainit nb) ops = AOk a.
+
+(* ---------- entry points of the extracted model runner (ocaml/cmds/20_arenamem.ml) *)
+Definition am_run (nb : nat) (cp : N) (answers : list (N * option N)) (ops : list op) : mres mem_arena :=
+  run (fun k => nth k answers (0, None)) (init nb cp) ops.
+Definition am_arun (strict : bool) (nb : nat) (ops : list op) : ares aarena := arun strict (ainit nb) ops.
+Definition am_mem (m : mem_arena) : list (N * bytes) := map (fun b => (base b, data b)) (mbufs m).
+Definition am_calls (m : mem_arena) : nat := mcalls m.
+Definition am_abs (m : mem_arena) : list bytes * list (N * N) := (bufs (abs m), relocs (abs m)).
+Definition am_aabs (a : aarena) : list bytes * list (N * N) := (bufs (to_arena a), relocs (to_arena a)).
+Definition am_found (m : mem_arena) : bool := abs_found m.
+Definition am_save (m : mem_arena) : bytes := save_mem cfg_current m.
